@@ -19,6 +19,7 @@ func init() {
 			"(R3) geometry: the row count used for external-trigger counts comes from an active card, never from a map lookup by literal card number (nil when that card is not active), and every dereference of a device looked up in the card map is nil-guarded or comes from ranging over the map; the count recorded is (frame + block's counter)*rows + row of the scanned row, once per rising edge (previous state carried in a field across frames, rows and blocks); " +
 			"(R4) one-sample retard: both arms of the feedback mixer output the previous sample held in the state field and store the current sample with its two flag bits cleared; the error is taken as signed 16-bit, and the mixed value saturates at 0 and 65535; " +
 			"(R5) the reader copies word i + j*words-per-frame of each card's buffer to buffer i (plus the channels of earlier cards), sample j, and releases exactly frames-used times the frame size per card. " +
+			"(R6) the sample carried by a mixer object survives between blocks: only the mixer writes it, and mixer objects are never replaced by code the running loop can reach. " +
 			"Does not decide: frame-bit search, re-alignment arithmetic after a loss, mix scaling values, exactly-once of external triggers as a numeric fact.",
 		RuleDocs: []string{
 			"C04.R1 FRAME rule (E3) on the Lancero block assembly",
@@ -26,6 +27,7 @@ func init() {
 			"C04.R3 nil-guard of map lookups; provenance of the row count; E3 form of the recorded count; edge detection shape",
 			"C04.R4 E5 carried state and sibling agreement in the feedback mixer; saturation arms",
 			"C04.R5 E3 form of the demultiplexing copy and of the released byte count",
+			"C04.R6 ownership of the carried sample: the carried-sample field is stored only by the mixer's methods (or on a fresh object); the source's table of mixer objects and its elements are assigned only in functions the running data loop (getNextBlock and what it starts) cannot reach",
 		},
 		Assumptions: []string{"LanceroSource / Mix field names (chan2readoutOrder, devices, active, lastFb, errorScale, externalTriggerLastState) are name-keyed anchors"},
 		Run:         runC04,
@@ -38,10 +40,12 @@ func runC04(p *Prog, r *Report) {
 	r.MinInstances["C04.R3"] = 3
 	r.MinInstances["C04.R4"] = 6
 	r.MinInstances["C04.R5"] = 4
+	r.MinInstances["C04.R6"] = 2
 	frameRule(p, r, "C04.R1", func(fs frameSite) bool { return strings.Contains(FuncName(fs.fn), "LanceroSource") })
 	c04R2R3(p, r)
 	c04R4(p, r)
 	c04R5(p, r)
+	c04R6(p, r)
 }
 
 // dependsOnField: does v (data flow within the function, through locals) depend on a load of the named field?
@@ -744,6 +748,124 @@ func c04R5(p *Prog, r *Report) {
 			okMin = k >= 3 && !rel && search
 		}
 	})
+	if !okMin && minDesc == "no guard of the form len(b) < k*frameSize found" {
+		// the guard may sit in a helper that checks the read and reports a short one as an error:
+		// then the caller must be able to tell that error apart, and its way on to the next
+		// read must release nothing
+		Instrs(fn, func(in ssa.Instruction) {
+			call, ok := in.(*ssa.Call)
+			if !ok || call.Call.StaticCallee() == nil || !isModuleFn(call.Call.StaticCallee()) || call.Call.StaticCallee().Blocks == nil || okMin {
+				return
+			}
+			h := call.Call.StaticCallee()
+			hc := NewPolyCtx(h)
+			Instrs(h, func(x ssa.Instruction) {
+				iff, ok := x.(*ssa.If)
+				if !ok || okMin {
+					return
+				}
+				lx, ly, shortSucc, ok := strictLess(iff.Cond)
+				if !ok {
+					return
+				}
+				rhs := hc.Of(ly)
+				if len(rhs) != 1 || !strings.HasPrefix(hc.Of(lx).String(), "len(") {
+					return
+				}
+				var k int64
+				for sym, co := range rhs {
+					if !strings.Contains(sym, "frameSize") || strings.Contains(sym, "*") {
+						return
+					}
+					k = co
+				}
+				short := iff.Block().Succs[shortSucc]
+				ret, isRet := short.Instrs[len(short.Instrs)-1].(*ssa.Return)
+				if !isRet || len(ret.Results) == 0 || !isErrorType(ret.Results[len(ret.Results)-1].Type()) {
+					return
+				}
+				errIdx := len(ret.Results) - 1
+				search := false
+				Instrs(h, func(y ssa.Instruction) {
+					if c, ok := y.(*ssa.Call); ok && c.Call.StaticCallee() != nil && c.Call.StaticCallee().Name() == "FindFrameBits" {
+						if long := iff.Block().Succs[1-shortSucc]; long == c.Block() || long.Dominates(c.Block()) {
+							search = true
+						}
+					}
+				})
+				minDesc = fmt.Sprintf("reads shorter than %d frames are reported by %s as an error", k, FuncName(h))
+				// the sentinel, if the short-read error is one
+				var sentinel *ssa.Global
+				if ld, ok := ret.Results[errIdx].(*ssa.UnOp); ok && ld.Op == token.MUL {
+					sentinel, _ = ld.X.(*ssa.Global)
+				}
+				// the caller's branch taken for that error
+				var errVal ssa.Value
+				for _, ref := range *call.Referrers() {
+					if ex, ok := ref.(*ssa.Extract); ok && ex.Index == errIdx {
+						errVal = ex
+					}
+				}
+				if len(ret.Results) == 1 {
+					errVal = call
+				}
+				if errVal == nil {
+					return
+				}
+				var taken *ssa.BasicBlock
+				Instrs(fn, func(y ssa.Instruction) {
+					i2, ok := y.(*ssa.If)
+					if !ok || taken != nil {
+						return
+					}
+					bo, ok := i2.Cond.(*ssa.BinOp)
+					if !ok || (bo.Op != token.EQL && bo.Op != token.NEQ) {
+						return
+					}
+					other := bo.Y
+					if bo.Y == errVal {
+						other = bo.X
+					} else if bo.X != errVal {
+						return
+					}
+					side := 0
+					if bo.Op == token.NEQ {
+						side = 1
+					}
+					if sentinel != nil {
+						if ld, ok := other.(*ssa.UnOp); ok && ld.Op == token.MUL && ld.X == ssa.Value(sentinel) {
+							taken = i2.Block().Succs[side]
+						}
+						return
+					}
+					if cst, ok := other.(*ssa.Const); ok && cst.IsNil() {
+						taken = i2.Block().Succs[1-side] // err != nil side
+					}
+				})
+				if taken == nil {
+					minDesc += ", but the reader has no branch for that error"
+					return
+				}
+				rel := ReachAvoiding(fn, taken.Instrs[0], func(y ssa.Instruction) bool {
+					cc := CallOf(y)
+					return cc != nil && cc.IsInvoke() && cc.Method.Name() == "AvailableBuffer"
+				}, func(y ssa.Instruction) bool {
+					cc := CallOf(y)
+					return cc != nil && cc.IsInvoke() && cc.Method.Name() == "ReleaseBytes"
+				})
+				for _, y := range taken.Instrs {
+					if cc := CallOf(y); cc != nil && cc.IsInvoke() && cc.Method.Name() == "ReleaseBytes" {
+						rel = append(rel, y)
+					}
+				}
+				if len(rel) > 0 {
+					minDesc += ", and the reader releases bytes on the way that error takes (at " + p.InstrPos(rel[0]) + ")"
+					return
+				}
+				okMin = k >= 3 && search
+			})
+		})
+	}
 	r.Check(okMin, "C04.R5", "reads shorter than the 3-frame minimum are left for the next tick", p.Pos(fn.Pos()), minDesc, "the reader accepts reads shorter than three frames ("+minDesc+"): the frame-bit search fails on a read of exactly that many frames and the bytes are released unprocessed, silently losing frames")
 	// buffer lengths all equal framesUsed: one make in a loop over all processors
 	okLen := false
@@ -764,4 +886,133 @@ func c04R5(p *Prog, r *Report) {
 		}
 	})
 	r.Check(okLen, "C04.R5", "every channel buffer of a block has the same length", p.Pos(fn.Pos()), "one make(framesUsed) per channel in a range loop", "channel buffers are not all made with the block's frame count")
+}
+
+// ---- R6 -----------------------------------------------------------------------------------
+
+// c04R6: the one-sample delay holds across block boundaries only if the sample carried in the
+// mixer object survives from one block to the next: (a) the carried-sample field is written by the
+// mixer's own methods only (or while a fresh object is built); (b) the table of mixer objects of a
+// source, and its elements, are assigned only by functions the running data loop cannot reach (a
+// mixer replaced between two blocks forgets the previous sample).
+func c04R6(p *Prog, r *Report) {
+	run := p.Func("", "LanceroSource", "getNextBlock")
+	if run == nil {
+		r.Unk("C04.R6", "getNextBlock", "-", "name-keyed anchor not found")
+		return
+	}
+	top := func(f *ssa.Function) *ssa.Function {
+		for f.Parent() != nil {
+			f = f.Parent()
+		}
+		return f
+	}
+	nLast, badLast := 0, ""
+	for _, fn := range p.LibFuncs() {
+		for _, st := range StoresTo(fn, "Mix", "lastFb") {
+			nLast++
+			fa := st.Addr.(*ssa.FieldAddr)
+			if _, fresh := fa.X.(*ssa.Alloc); fresh {
+				continue
+			}
+			t := top(fn)
+			if t.Signature.Recv() != nil && typeName(t.Signature.Recv().Type()) == "Mix" {
+				continue
+			}
+			// handing the carried sample over from one mixer object to another keeps it
+			if ld, ok := st.Val.(*ssa.UnOp); ok && ld.Op == token.MUL {
+				if fa2, ok := ld.X.(*ssa.FieldAddr); ok && typeName(fa2.X.Type()) == "Mix" && derefStruct(fa2.X.Type()).Field(fa2.Field).Name() == "lastFb" {
+					continue
+				}
+			}
+			if badLast == "" {
+				badLast = fmt.Sprintf("%s writes the carried sample of a mixer at %s: the previous feedback sample is no longer what the mixer saw last, so the stream is not delayed by exactly one sample there", FuncName(fn), p.InstrPos(st))
+			}
+		}
+	}
+	if nLast > 0 {
+		r.Check(badLast == "", "C04.R6", "writers of the mixer's carried sample", "-", fmt.Sprintf("%d stores, all in the mixer's own methods or on a fresh object", nLast), badLast)
+	}
+	// (b) assignments of the table and of its elements
+	isMixTable := func(addr ssa.Value) bool {
+		fa, ok := addr.(*ssa.FieldAddr)
+		if !ok {
+			return false
+		}
+		st := derefStruct(fa.X.Type())
+		return st != nil && st.Field(fa.Field).Name() == "Mix" && typeName(fa.X.Type()) == "LanceroSource"
+	}
+	seen := map[*ssa.Function]bool{}
+	for _, fn := range p.LibFuncs() {
+		var sites []*ssa.Store
+		Instrs(fn, func(in ssa.Instruction) {
+			st, ok := in.(*ssa.Store)
+			if !ok {
+				return
+			}
+			if isMixTable(st.Addr) {
+				sites = append(sites, st)
+				return
+			}
+			if ia, ok := st.Addr.(*ssa.IndexAddr); ok {
+				if ld, ok := ia.X.(*ssa.UnOp); ok && ld.Op == token.MUL && isMixTable(ld.X) {
+					sites = append(sites, st)
+				}
+			}
+		})
+		if len(sites) == 0 || seen[top(fn)] {
+			continue
+		}
+		t := top(fn)
+		seen[t] = true
+		r.Fn(FuncName(t))
+		reached, path := p.Reaches(run, func(f *ssa.Function) bool { return f == t || f == fn }, 10)
+		key := "mixer objects assigned in " + FuncName(t) + " are not replaced while data flows"
+		// a replacement that first takes over the carried sample of the object it replaces
+		handsOver := true
+		for _, st := range sites {
+			ia, isElem := st.Addr.(*ssa.IndexAddr)
+			if !isElem {
+				handsOver = false
+				continue
+			}
+			ok := false
+			Instrs(fn, func(in ssa.Instruction) {
+				s2, isSt := in.(*ssa.Store)
+				if !isSt || !InstrDominates(s2, st) {
+					return
+				}
+				fa, isFA := s2.Addr.(*ssa.FieldAddr)
+				if !isFA || fa.X != st.Val || derefStruct(fa.X.Type()).Field(fa.Field).Name() != "lastFb" {
+					return
+				}
+				// value: (table[index]).lastFb with the same table and index
+				ld, isLd := s2.Val.(*ssa.UnOp)
+				if !isLd {
+					return
+				}
+				fa2, isFA2 := ld.X.(*ssa.FieldAddr)
+				if !isFA2 || derefStruct(fa2.X.Type()).Field(fa2.Field).Name() != "lastFb" {
+					return
+				}
+				if el, isEl := fa2.X.(*ssa.UnOp); isEl {
+					if ia2, isIA := el.X.(*ssa.IndexAddr); isIA && ia2.Index == ia.Index {
+						if l1, ok1 := ia2.X.(*ssa.UnOp); ok1 {
+							if l0, ok0 := ia.X.(*ssa.UnOp); ok0 && isMixTable(l1.X) && isMixTable(l0.X) {
+								ok = true
+							}
+						}
+					}
+				}
+			})
+			handsOver = handsOver && ok
+		}
+		if reached && handsOver {
+			r.OK("C04.R6", key, p.InstrPos(sites[0]), "reachable from the running loop, but the new object takes over the carried sample of the one it replaces")
+		} else if reached {
+			r.Bad("C04.R6", key, p.InstrPos(sites[0]), "the running data loop reaches this assignment ("+pathString(path)+"): a mixer object replaced between two blocks has forgotten the previous feedback sample, so the first sample of the next block is mixed onto 0 instead of onto the sample before it")
+		} else {
+			r.OK("C04.R6", key, p.InstrPos(sites[0]), "not reachable from getNextBlock")
+		}
+	}
 }
